@@ -61,6 +61,10 @@ def cases(tier, seed):
         out.append(('designed', 200, t, 0, ''))
     for fam in FAMS:
         out.append(('history', 0, fam, 0, ''))
+    # |tau| within 1e-5 of 1 but not 1: monotone data with one adjacent pair swapped (tau = +-(1 - 4/(n(n-1))))
+    for n in (700, 1000, 2000):
+        for sign in (1, -1):
+            out.append(('near-monotone', n, sign, 0, ''))
     # big cases first for load balance
     out.sort(key=lambda c: (c[0] != 'patterns', -(c[1] if isinstance(c[1], int) else 0)))
     return out
@@ -140,7 +144,10 @@ def _check_fit(r, fam, X, case, tag):
                 r.violation(f'{sig}:calibration', f'{desc}: theta={th!r} has Kendall tau {t_of_theta!r}, data tau='
                             f'{tref!r} (tol {tol:.1e})', case=case, X=X)
     else:
-        if not abs(th - th_ref) <= 1e-12 * max(1.0, abs(th_ref)):
+        # theta(tau) = c / (1 - tau) amplifies the last bit of tau (two correct tau-b implementations differ by one ulp) by
+        # c / (1 - tau)^2: 1e-10 relative at tau = 1 - 1e-6
+        slope = (2.0 if fam == 'clayton' else 1.0) / (1.0 - tref) ** 2
+        if not abs(th - th_ref) <= 1e-12 * max(1.0, abs(th_ref)) + 8 * np.finfo(float).eps * slope:
             r.violation(f'{sig}:calibration', f'{desc}: theta={th!r}, calibration of tau={tref!r} is {th_ref!r}',
                         case=case, X=X)
     r.outcome(f'{fam}:fitted')
@@ -192,6 +199,19 @@ def run_case(case):
         r.hit(f'n={n}', stop - start)
         r['sample'] = {'n': n, 'pattern_index': start, 'mapping': mapping,
                        'X': A.pattern_array(n, start, mapping).tolist()}
+        return r
+    if kind == 'near-monotone':
+        _, n, sign, _, _ = case
+        u = (np.arange(n) + 0.5) / n
+        for where in (0, n // 2, n - 2):
+            v = u.copy() if sign > 0 else 1 - u
+            v[[where, where + 1]] = v[[where + 1, where]]
+            X = np.column_stack([u, v])
+            for fam in FAMS:
+                _check_fit(r, fam, X, case, f'{"in" if sign > 0 else "de"}creasing n={n} with rows {where},{where + 1} swapped')
+                r.state(('near-monotone', n, sign, where, fam))
+        r.hit('near-monotone')
+        r['sample'] = {'n': n, 'sign': sign, 'tau': sign * (1 - 4 / (n * (n - 1)))}
         return r
     if kind == 'designed':
         _, n, t, _, _ = case
